@@ -4,3 +4,7 @@ package hashgraph
 // delivered once, also when the application or the store fails in the middle
 // of a pass (same obligation as C02/O1).
 func VerifHarness_C05_O3() { VerifHarness_C02_O1() }
+
+// C05/O4 — the block payload is the concatenation of the frame events'
+// transactions, duplicates and empty ones included (= C04/O4).
+func VerifHarness_C05_O4() { VerifHarness_C04_O4() }
